@@ -105,6 +105,8 @@ type config struct {
 	cold     bool // a replica that is closed and reopened before every request
 	hard     bool // reopening closes and reopens Pebble too (else only the kv.DB layer on the open engine)
 	nQuick   int  // the quick tier searches the first nQuick operations of the alphabet (0 = all)
+	// preload: operations applied before the search starts (a non-initial state: a longer history)
+	preload []int
 	// memo: histories whose last step has passed the stream oracles. seqx replays the (validated)
 	// prefix on a fresh instance for every successor; the subscriber simulation and the model
 	// guards are not repeated for those steps (same history, same verdict), only for the new one.
@@ -138,6 +140,7 @@ func (in *inst) oracles(withGuards bool) *ev.Violation {
 }
 
 type inst struct {
+	pre    *ev.Violation // a violation met while building the preloaded start state
 	cfg    *config
 	db     kv.DB    // live leader (never reopened, trimmed)
 	stores []*store // primary[, lock-step replica][, reopened replica]
@@ -274,6 +277,12 @@ func newInst(cfg *config) *inst {
 	if cfg.cold {
 		in.cold = newStore("reopened replica", &time2.MockedClock{}, cfg.hard)
 		in.stores = append(in.stores, in.cold)
+	}
+	for _, op := range cfg.preload {
+		if _, v := in.step(op); v != nil && in.pre == nil {
+			v.Message = "while building the start state: " + v.Message
+			in.pre = v
+		}
 	}
 	return in
 }
@@ -430,7 +439,10 @@ var (
 	cfgSeq     = &config{name: "db+replica", ops: buildOps(), lockstep: true}
 	cfgRefusal = &config{name: "refusals", ops: buildRefusalOps(), cold: true, nQuick: 11}
 	cfgRefHard = &config{name: "refusals-hard", ops: buildRefusalOps(), cold: true, hard: true} // thorough tier only
-	configs    = []*config{cfgRefusal, cfgRefHard, cfgSeq}
+	// start state: five requests, the third refused as a whole (an offset without a batch in the middle of the
+	// stored batches: where the trimmer's binary search probes first)
+	cfgRefPre = &config{name: "refusals-preloaded", ops: buildRefusalOps(), cold: true, nQuick: 11, preload: []int{0, 0, 8, 0, 0}}
+	configs   = []*config{cfgRefusal, cfgRefHard, cfgRefPre, cfgSeq}
 )
 
 // ---------------------------------------------------------------------------------------------
@@ -916,6 +928,12 @@ func (in *inst) recordSoft(v *ev.Violation) {
 }
 
 func (in *inst) Step(op int) (bool, *ev.Violation) {
+	if in.pre != nil {
+		// the start state itself already disagrees with the model: report it at the first step
+		v := in.pre
+		in.pre = nil
+		return true, v
+	}
 	en, v := in.step(op)
 	return en, v
 }
@@ -1220,11 +1238,11 @@ func main() {
 	}
 	run := ev.NewRun("C17", "model_checking")
 	// per alphabet: depth and the share of the wall-clock budget (the search that is cut says exhaustive:false)
-	depth := map[*config]int{cfgRefusal: 4, cfgSeq: 4}
-	budget := map[*config]time.Duration{cfgRefusal: 30 * time.Second, cfgSeq: 45 * time.Second}
+	depth := map[*config]int{cfgRefusal: 4, cfgRefPre: 2, cfgSeq: 4}
+	budget := map[*config]time.Duration{cfgRefusal: 30 * time.Second, cfgRefPre: 10 * time.Second, cfgSeq: 45 * time.Second}
 	if run.Tier == "thorough" {
-		depth = map[*config]int{cfgRefusal: 5, cfgRefHard: 4, cfgSeq: 6}
-		budget = map[*config]time.Duration{cfgRefusal: 5 * time.Minute, cfgRefHard: 2 * time.Minute, cfgSeq: 10 * time.Minute}
+		depth = map[*config]int{cfgRefusal: 5, cfgRefHard: 4, cfgRefPre: 3, cfgSeq: 6}
+		budget = map[*config]time.Duration{cfgRefusal: 5 * time.Minute, cfgRefHard: 2 * time.Minute, cfgRefPre: 2 * time.Minute, cfgSeq: 10 * time.Minute}
 	}
 	if d := os.Getenv("VERIF_DEPTH"); d != "" {
 		var n int
